@@ -322,66 +322,7 @@ def _returned_roots(w):
 
 # ---------------------------------------------------------------- R3 document coverage
 
-PRESERVING = {"lines", "par_lines", "collect", "deref", "deref_mut", "chunks", "par_chunks", "rchunks", "par_rchunks", "par_iter", "iter", "into_iter",
-              "into_par_iter", "par_bridge", "to_vec", "cloned", "copied", "as_slice", "as_str", "as_ref", "borrow", "to_owned",
-              "to_string", "clone", "enumerate", "from", "into", "collect_into_vec", "from_iter", "as_bytes", "split_inclusive"}
-# a `map` keeps one output per input whatever its closure does; what matters is that the closure does not itself pick a sub-range
-SUBRANGE = {"index", "index_mut", "get", "get_mut", "get_unchecked", "split_at", "split_off", "truncate", "drain", "take", "skip", "step_by",
-            "chunks_exact", "windows", "nth", "first", "last", "split_first", "split_last", "take_while", "skip_while"}
-
-
-def _pipeline_terminals(prog, b, op, seen, out, depth=0):
-    """walk backwards from an operand to everything it is computed from; element-preserving calls are followed through their
-    receiver, anything else is a terminal: ('doc', name) for a &str parameter, ('call', name, ln) / ('computed', ln) otherwise"""
-    pl = F.op_place(op)
-    if pl is None:
-        return
-    if any(e["k"] == "index" for e in pl["p"]):
-        out.append(("computed", "indexing", None))
-    l = pl["l"]
-    if (b.key, l) in seen or depth > 60:
-        return
-    seen.add((b.key, l))
-    for d in b.defs().get(l, []):
-        if d[0] == "arg":
-            ty = b.local_ty(l)
-            if ty.replace("&", "").replace("mut ", "").strip().startswith(("str", "alloc::string::String", "'")) or "str" == ty.strip("&"):
-                out.append(("doc", b.local_name(l), None))
-            elif b.is_closure and l == 1:
-                out.append(("capture", None, None))
-            else:
-                out.append(("param", b.local_name(l), None))
-        elif d[0] in ("assign", "partial"):
-            rv = d[3]
-            k = rv["rv"]
-            if k in ("use", "cast", "ref", "rawptr"):
-                for p2, kind in F.rv_places(rv):
-                    _pipeline_terminals(prog, b, {"k": "copy", "pl": p2}, seen, out, depth + 1)
-            elif k == "aggregate" and rv.get("ak") in ("tuple", "array") :
-                for o in rv["ops"]:
-                    _pipeline_terminals(prog, b, o, seen, out, depth + 1)
-            elif k == "aggregate" and rv.get("ak") == "adt" and not rv["ops"]:
-                pass
-            else:
-                ln = None
-                for blk in b.blocks:
-                    if blk["bb"] == d[1]:
-                        ln = blk["st"][d[2]].get("ln")
-                out.append(("computed", k + (":" + rv.get("adt", "").rsplit("::", 1)[-1] if k == "aggregate" else ""), ln))
-        elif d[0] in ("call", "partial_call"):
-            c = d[2]
-            nm = c.name()
-            if nm in PRESERVING and c.args:
-                _pipeline_terminals(prog, b, c.args[0], seen, out, depth + 1)
-            elif nm == "map" and len(c.args) == 2:
-                from c19 import closure_family_calls
-                key, inner = closure_family_calls(prog, b, c.args[1])
-                bad = sorted({ic.name() for x, ic in inner if ic.name() in SUBRANGE}) if key else ["<unresolved closure>"]
-                if bad:
-                    out.append(("call", "map(closure calling %s)" % ", ".join(map(str, bad)), c.ln))
-                _pipeline_terminals(prog, b, c.args[0], seen, out, depth + 1)
-            else:
-                out.append(("call", nm, c.ln))
+from lib.pipeline import coverage_terminals as _pipeline_terminals
 
 
 def r3(R):
